@@ -21,8 +21,6 @@ WellFormedLine(ln) ==
   /\ \A i \in 1 .. Len(ln.answers) :
         /\ ln.answers[i].prio \in 0 .. 65535 /\ ln.answers[i].weight \in 0 .. 65535
         /\ ln.answers[i].port \in 0 .. 65535 /\ Len(ln.answers[i].target) >= 1
-  /\ \A i \in 1 .. Len(ln.answers) : \A j \in 1 .. Len(ln.answers) :
-        i # j => Strip(ln.answers[i].target) # Strip(ln.answers[j].target)
 
 (* why a returned record is not acceptable                                      *)
 WhyNotBest(r, A) ==
